@@ -101,7 +101,7 @@ CLAIMED["C05"] = dict(
           "views of the parameter's own storage, gradient block k has parameter block k's box, selector repeats presence per block."),
     design_ref="DESIGN.md §4/C05",
     note=("torch.split / view / detach contracts assumed (validated natively, bounded); chunk counts per dimension enumerated in {1,2,3} for the fold structure; "
-          "product-of-partitions fact cited; independence of blocks is the non-interference obligation of C01/C04; exhaustive small-shape native tiling check reported as bounded"),
+          "product-of-partitions fact machine-checked by Lean 4 on every run (lemmas/C05ProductPartition.lean); independence of blocks is the non-interference obligation of C01/C04; exhaustive small-shape native tiling check reported as bounded"),
     technique=E2 + "; LIA/NIA over symbolic extents, view/box theory with a torch.split contract stub",
 )
 
@@ -114,10 +114,10 @@ CLAIMED["C15"] = dict(
           "copies return identical pieces. Minimality: the code is proved to follow the optimal recurrence (rec(d+1) on the partial ranges, one slab for the aligned centre, "
           "direct descent when no cell boundary lies in the range) with the strengthened recursion precondition end - start < R_{d-1}, and the arithmetic lemmas of the lower "
           "bound (a slab of level d lies in the centre, deeper slabs lie in one of the three parts because cells nest, no shallower slab fits) are discharged as pure integer "
-          "obligations; the counting / induction step combining them is a paper argument, cross-checked exhaustively against a DP optimum on small shapes (bounded)."),
+          "obligations; the counting / induction step combining them is machine-checked by Lean 4 on every run (lemmas/C15Minimality.lean, theorem C15.minimality_top) and additionally cross-checked exhaustively against a DP optimum on small shapes (bounded)."),
     design_ref="DESIGN.md §4/C15",
     note=("narrow/view contracts assumed; recursion by contract; nonlinear integer arithmetic with explicit div/mod axiom instances; products of extents kept atomic; "
-          "minimality: recurrence + arithmetic lemmas proved, counting/induction step cited (checks/c15.py docstring) and sampled exhaustively (numel <= 24 quick / 64 thorough); "
+          "minimality: recurrence + arithmetic lemmas proved, counting/induction step proved in Lean 4 (lemmas/C15Minimality.lean, a statement about the specification linked to the code by the recurrence obligation) and sampled exhaustively (numel <= 24 quick / 64 thorough); "
           "wrapper checked by run-time contract evaluation on all small shapes"),
     technique=E2 + "; recursion by contract on the real nested code object, NIA with div/mod axiom instances, relational obligation for the two copies",
 )
@@ -154,7 +154,7 @@ CLAIMED["C11"] = dict(
           "monotone-power axioms); the 1x1 shortcut equals that formula for any sign; non-square / non-2-D inputs with more than one element are rejected on every path; the "
           "double-precision retry happens exactly when the first attempt throws, the flag is set and the dtype is not float64."),
     design_ref="DESIGN.md §4/C11",
-    note=("eigh exact-arithmetic contract and real-power axioms assumed; symmetric-PD / commuting / equivariance consequences of the spectral form are cited textbook facts and are "
+    note=("eigh exact-arithmetic contract and real-power axioms assumed; symmetric-PD / commuting / equivariance consequences of the spectral form are machine-checked by Lean 4 / Mathlib on every run (lemmas/C11Spectral.lean) and are "
           "sampled natively (bounded) on zero, rank-deficient and slightly indefinite matrices; floating-point finiteness sampled"),
     technique=E2 + "; real arithmetic lemma for the spectral function",
 )
